@@ -379,9 +379,7 @@ impl<'a> StagesBuilder<'a> {
     fn remove_ids(&self, stage: usize, new_dep: &mut SmallVec<[SystemId; 4]>) {
         if !new_dep.is_empty() {
             for id in self.ids[stage].iter().flatten() {
-                if let Some(index) = new_dep.iter().position(|x| *x == *id) {
-                    new_dep.remove(index);
-                }
+                new_dep.retain(|x| *x != *id);
             }
         }
     }
